@@ -13,6 +13,7 @@ import (
 )
 
 type emitter struct {
+	inReturn  bool // inside a return statement
 	rawOpt    bool // read a nil-able location as the Option it is (for comparisons with nil)
 	rawAssign bool // the value being assigned already has the representation of its target
 	makeNone  bool // make([]T, n) for elements that can be nil
@@ -248,7 +249,11 @@ func (g *gen) emitAll(w io.Writer, repo string) {
 		for _, f := range si.fields {
 			fmt.Fprintf(w, "  %s : %s\n", leanField(f.Name()), g.typeOfVar(fi0(g), f))
 		}
-		fmt.Fprintf(w, "deriving Repr, DecidableEq, Inhabited\n\n")
+		if st, ok := si.named.Underlying().(*types.Struct); ok && hasFuncField(st) {
+			fmt.Fprintf(w, "\n")
+		} else {
+			fmt.Fprintf(w, "deriving Repr, DecidableEq, Inhabited\n\n")
+		}
 	}
 	for _, fi := range sorted {
 		pos := g.fset.Position(fi.decl.Pos()).Filename
@@ -488,6 +493,8 @@ func (e *emitter) isLockCall(call *ast.CallExpr) bool {
 }
 
 func (e *emitter) returnStmt(t *ast.ReturnStmt, c ctx) {
+	e.inReturn = true
+	defer func() { e.inReturn = false }()
 	var vals []string
 	if len(t.Results) == 0 {
 		for _, r := range c.named {
